@@ -38,6 +38,11 @@ fn main() {
         eprintln!("watchdog: no verdict after {limit}s -- inconclusive");
         std::process::exit(2);
     });
+    if let Some(p) = args.iter().position(|a| a == "--child") {
+        let w: usize = args.get(p + 1).and_then(|s| s.parse().ok()).unwrap_or(0);
+        let skip: u64 = args.iter().position(|a| a == "--skip").and_then(|q| args.get(q + 1)).and_then(|s| s.parse().ok()).unwrap_or(0);
+        std::process::exit(driver::run_child(check.as_ref(), tier, seed, w, skip));
+    }
     if let Some(p) = args.iter().position(|a| a == "--render") {
         let t = vcore::tape::Tape::from_hex(args.get(p + 1).map(|s| s.as_str()).unwrap_or("")).expect("bad tape hex");
         println!("{}", serde_json::to_string_pretty(&check.render(&t)).unwrap());
